@@ -60,3 +60,75 @@ for _f, _params, _ret in (
         )},
         options={"yields": "any"},
     )
+
+# ---- loose objects: the inflated size is bounded by the caller's limit, the header scan by its 8 KiB window ---------
+O = "dulwich/objects.py"
+contract(prop=["C04"], file="<stdlib>", func="ZObj.flush", trusted=True, params={"self": "obj:ZObj"}, returns="bytes",
+         raises={"error": None}, ensures=["len(result) <= 32768 + 258"],
+         note="zlib keeps at most one window (32 KiB) plus one match of pending output once all input has been consumed")
+contract(
+    prop=["C04"], file=O, func="_decompress",
+    params={"string": "bytes", "max_size": "int"}, returns="bytes",
+    requires=["max_size >= 0"],
+    raises={"error": None},
+    ensures=["len(result) <= max_size"],
+)
+contract(
+    prop=["C04"], file=O, func="ShaFile._parse_legacy_object_header",
+    params={"magic": "bytes"}, returns="opaque",
+    raises={"error": None, "ObjectFormatException": None, "ValueError": None, "Exception": None},
+    # the call-site obligation of ZObj.decompress (max_length >= 1: never "unlimited") is the property; the
+    # invariant keeps the inflated prefix inside the 8 KiB window
+    loops={1: dict(invariant=["header_max == 8192", "len(header) <= header_max"],
+                   types={"header": "bytes", "end": "int", "start": "int"})},
+    options={"yields": "any"},
+)
+
+# ---- index entries: the NUL scan for long names terminates on every input (damaged / truncated index files) ----------
+IX = "dulwich/index.py"
+contract(
+    prop=["C04", "C11"], file=IX, func="read_cache_entry",
+    params={"f": "obj:BytesIO", "version": "int", "previous_path": "bytes"}, returns="opaque",
+    modifies=["f.pos", "f.content"],
+    raises={"Exception": None},
+    # totality: ordinary errors only, and the byte-by-byte scan for the terminator of a saturated name consumes input on
+    # every iteration (variant: bytes left in the stream), so a file without that NUL cannot make the reader spin
+    loops={1: dict(invariant=["True"], decreases="max(len(f.content) - f.pos, 0)",
+                   types={"name": "opaque", "name_end": "opaque", "char": "bytes"})},
+    options={"default_param": "opaque"},
+)
+
+# ---- a pack that fails its post-install validation is removed again, whatever the failure is (mode C) ----------------
+# ghost fields on the store: `validating` is set when the Pack object over the installed files is created, `removed`
+# counts the unlink calls.  Every exceptional exit after that point (any call may raise any BaseException) must have
+# unlinked both the pack and its index.
+from pyvc.contract import CLASS_SPECS, REGISTRY
+import contracts.c09_crash  # noqa: F401,E402  (extends the C07/C09 contract of _complete_pack)
+
+OSF = "dulwich/object_store.py"
+_cs = CLASS_SPECS["DiskObjectStore"]
+_cs.fields = dict(_cs.fields, validating="bool", removed="int", removal_failed="bool")
+_cs.stable = list(_cs.stable) + ["validating", "removed", "removal_failed"]
+contract(prop=["C04"], file="<abstract>", func="Pack@ghost", trusted=True, params={}, free={"self": "obj:DiskObjectStore"},
+         returns="opaque", modifies=["self.validating"], raises={"BaseException": ["self.validating == old(self.validating)"]},
+         ensures=["self.validating"], options={"default_param": "opaque"},
+         note="ghost marker: the Pack object over the freshly installed files exists (validation is about to start)")
+contract(prop=["C04"], file="<stdlib>", func="os.remove@rollback", trusted=True, params={"path": "opaque"},
+         free={"self": "obj:DiskObjectStore"}, returns="None", modifies=["self.removed", "self.removal_failed"],
+         raises={"FileNotFoundError": ["self.removed == old(self.removed) + 1", "self.removal_failed == old(self.removal_failed)"],
+                 "BaseException": ["self.removal_failed"]},
+         ensures=["self.removed == old(self.removed) + 1", "self.removal_failed == old(self.removal_failed)"],
+         note="after os.remove(path) returns, or raises FileNotFoundError, the path does not exist")
+contract(prop=["C04"], file="<abstract>", func="DiskObjectStore._add_cached_pack@ghost", trusted=True,
+         params={"self": "obj:DiskObjectStore", "base_name": "opaque", "pack": "opaque"}, returns="None", modifies=["self.validating"],
+         raises={"BaseException": ["not self.validating"]}, ensures=["not self.validating"],
+         note="ghost marker: validation is over (the pack was accepted) when the pack is handed to the cache")
+_c = REGISTRY[(OSF, "DiskObjectStore._complete_pack")]
+_c.prop = sorted(set(_c.prop) | {"C04"})
+_c.requires = list(_c.requires) + ["not self.validating", "self.removed == 0", "not self.removal_failed"]
+_c.modifies = list(_c.modifies) + ["self.validating", "self.removed", "self.removal_failed"]
+# (an unlink that itself fails with something else than FileNotFoundError is the one excuse)
+_c.raises = {"BaseException": ["(not self.validating) or self.removed >= 2 or self.removal_failed"]}
+_c.options = dict(_c.options, primitives=dict(_c.options.get("primitives", {}), **{"os.remove": "os.remove@rollback"}),
+                  callee_contracts=dict(_c.options.get("callee_contracts", {}), **{"Pack": ("<abstract>", "Pack@ghost"),
+                                                                              "DiskObjectStore._add_cached_pack": ("<abstract>", "DiskObjectStore._add_cached_pack@ghost")}))
